@@ -91,7 +91,8 @@ def _mod(mod, name, *a):
 
 
 OPS = ["complement", "converse", "union", "filter_vertices"]
-PREDS = ["is_semicomplete", "is_tournament", "is_complete", "is_regular", "is_simple"]
+PREDS = ["is_semicomplete", "is_tournament", "is_complete", "is_regular", "is_simple", "is_balanced", "is_symmetric", "is_oriented",
+         "is_subdigraph", "is_superdigraph", "is_spanning_subdigraph"]
 
 RULES = {
     "PURE": _mod("rules2", "rule_pure", None),
@@ -134,6 +135,10 @@ RULES = {
     "ENCAPS": _guard("rule_encaps"),
     "BITS": _guard("rule_bits"),
     "BITSET": _guard("rule_bitset"),
+    "OPS-WRITES": _guard("rule_ops_writes"),
+    "NARROW-ALGO": _guard("rule_narrow", "algo"),
+    "NARROW-GEN": _guard("rule_narrow", "gen"),
+    "NARROW-REPR": _guard("rule_narrow", "repr"),
     "EXHAUST-DJ": rule_exhaust_for(["::Dijkstra", "::DijkstraDist"]),
     "EXHAUST-BFS": rule_exhaust_for(["::Bfs", "::BfsDist"]),
     "EXHAUST-PRED": rule_exhaust_for(["::BfsPred", "::DijkstraPred"]),
@@ -216,7 +221,7 @@ PROPERTY_RULES = {
         "assumptions": COMMON_ASSUMPTIONS,
     },
     "C11": {
-        "rules": ["PURE-OPS", "IDSRC-OPS", "CONC-OPS", "BITS", "FILTER-VERTS"],
+        "rules": ["PURE-OPS", "IDSRC-OPS", "CONC-OPS", "BITS", "FILTER-VERTS", "OPS-WRITES"],
         "explanation": "complement / converse / union / filter_vertices: operands are unchanged (PURE on these methods and "
                        "their closures); AdjacencyMap's implementations never use 0..order, a position or a count as a vertex "
                        "id (IDSRC); the threaded AdjacencyList::{complement, union} and AdjacencyMap::union join every worker "
@@ -443,3 +448,14 @@ PROPERTY_RULES = {
         "assumptions": COMMON_ASSUMPTIONS,
     },
 }
+
+# NARROW (added after round 6): one scope per group of properties
+_NARROW_TEXT = (" No integer is converted with `as` to a narrower type unless its value is provably representable "
+                "(NARROW: a masked / reduced / bit-count value; the pinned tree has no narrowing conversion at all, so a packed "
+                "u32 heap key or vertex id is reported where it is introduced).")
+for _pid, _rule in (("C03", "NARROW-ALGO"), ("C04", "NARROW-ALGO"), ("C05", "NARROW-ALGO"), ("C06", "NARROW-ALGO"), ("C07", "NARROW-ALGO"),
+                    ("C08", "NARROW-ALGO"), ("C18", "NARROW-ALGO"), ("C19", "NARROW-ALGO"), ("C14", "NARROW-GEN"), ("C15", "NARROW-GEN"),
+                    ("C01", "NARROW-REPR"), ("C02", "NARROW-REPR"), ("C11", "NARROW-REPR"), ("C12", "NARROW-REPR"),
+                    ("C16", "NARROW-REPR"), ("C20", "NARROW-REPR")):
+    PROPERTY_RULES[_pid]["rules"] = PROPERTY_RULES[_pid]["rules"] + [_rule]
+    PROPERTY_RULES[_pid]["explanation"] += _NARROW_TEXT
